@@ -10,6 +10,7 @@ import (
 	"runtime/debug"
 	"strings"
 	"sync"
+	"sync/atomic"
 	"testing"
 	"testing/synctest"
 	"time"
@@ -110,6 +111,21 @@ type CLIHooksT struct {
 
 var CLIHooks CLIHooksT
 
+// simLogHook turns log lines into park points for goroutines the engine has registered (the
+// goroutines that call Cancel): a log call is a place where the Go scheduler may well switch.
+type simLogHook struct{}
+
+var logYield atomic.Value // func(msg string)
+
+func (simLogHook) Levels() []logrus.Level { return logrus.AllLevels }
+
+func (simLogHook) Fire(e *logrus.Entry) error {
+	if f, _ := logYield.Load().(func(string)); f != nil {
+		f(e.Message)
+	}
+	return nil
+}
+
 // WorkerMain is the entry point of a worker process.
 func WorkerMain(t *testing.T) {
 	outW = bufio.NewWriter(os.Stdout)
@@ -133,6 +149,11 @@ func WorkerMain(t *testing.T) {
 	}
 	logrus.SetOutput(ioutil.Discard)
 	logrus.SetLevel(logrus.PanicLevel)
+	logrus.AddHook(simLogHook{})
+	// hooks are fired under the logger's mutex; a hook that parks would block every other goroutine
+	// that logs. The output is discarded and the simulator runs one goroutine at a time: no lock.
+	logrus.StandardLogger().SetNoLock()
+	logYield.Store((func(string))(nil))
 	if job.WatchdgS <= 0 {
 		job.WatchdgS = 60
 	}
